@@ -586,8 +586,10 @@ pub fn vex_program(src: &str, only: Option<&[Vec<VV>]>, nvec: usize, rng: &mut R
         Some(f) => f,
         None => return skip(out, "no IR function"),
     };
-    let ret_expr = match irf.args()[3].args() {
-        [r] if r.head() == "ret" && r.args().len() == 1 => r.args()[0].clone(),
+    // `(b (ret E))`, or `(b (expr (op <assignment> place rhs)) (ret (var x)))`: then the whole body is sent
+    let (ret_expr, is_assign) = match irf.args()[3].args() {
+        [r] if r.head() == "ret" && r.args().len() == 1 => (r.args()[0].clone(), false),
+        [e, r] if e.head() == "expr" && e.args()[0].head() == "op" && r.head() == "ret" && r.args().len() == 1 && r.args()[0].head() == "var" => (irf.args()[3].clone(), true),
         _ => return skip(out, "not an expression function"),
     };
     let irv = match IrV::new(&p.prog) {
@@ -629,8 +631,11 @@ pub fn vex_program(src: &str, only: Option<&[Vec<VV>]>, nvec: usize, rng: &mut R
                         .collect();
                     let req = format!("C02.vex\t{}\t{}\t{}\tvars={}\t{}", src1, src_name, show_vvectors(&vectors), vars.join(","), ret_expr.show());
                     let obs = match body.as_slice() {
-                        [r] if r.head() == "ret" && r.args().len() == 1 && mparams.len() == iparams.len() && mparams.iter().all(|m| m.head() == "val") => {
+                        [r] if !is_assign && r.head() == "ret" && r.args().len() == 1 && mparams.len() == iparams.len() && mparams.iter().all(|m| m.head() == "val") => {
                             format!("vast {} ;; run {}", r.args()[0].show(), rets)
+                        }
+                        [e, r] if is_assign && e.head() == "expr" && r.head() == "ret" && mparams.len() == iparams.len() && mparams.iter().all(|m| m.head() == "val") => {
+                            format!("vast {} ;; run {}", e.args()[0].show(), rets)
                         }
                         _ => "unsupported not-an-expression-function".to_string(),
                     };
@@ -708,6 +713,10 @@ pub fn vex_source(seed: u64, k: u64) -> String {
         return vgenm::vex_extra(&mut rng);
     }
     let opts = vgen::VGenOpts { max_depth: 1 + (k % 4) as u32, matrices: false, structs: false, enums: false, pure: true };
+    // every fourth: a statement-level assignment to a vector parameter / a swizzle of it
+    if k % 4 == 1 {
+        return vgen::VGen::new(&mut rng, opts).assignment_function();
+    }
     vgen::VGen::new(&mut rng, opts).expression_function()
 }
 
